@@ -6,7 +6,9 @@
 
 pub mod core;
 pub mod driver;
+pub mod ids;
 pub mod panichook;
+pub mod pool;
 
 pub use serde_json::{json, Map, Value as Json};
 use std::collections::BTreeMap;
